@@ -1031,7 +1031,7 @@ class Phi(LocalValue):
                 f"Type mismatch {value.ty} where {self.ty} was expected"
             )
         if block in self.inputs:
-            self.del_use(self.inputs[block])
+            self.del_incoming(block)
         self.inputs[block] = value
         self.add_use(value)
 
@@ -1042,7 +1042,9 @@ class Phi(LocalValue):
     def del_incoming(self, block):
         """Remove incoming branch from this phi node and delete the usage"""
         value = self.inputs.pop(block)
-        self.del_use(value)
+        # The same value may enter through several blocks:
+        if not any(v is value for v in self.inputs.values()):
+            self.del_use(value)
 
 
 class Alloc(LocalValue):
